@@ -121,6 +121,21 @@ def make_math(obj: dict, bounds):
                 s += z * z
             return off + s
 
+    elif fam == "penalty":
+        # a hard penalty: the value is infinite in the *bad* direction in a corner region (e.g. an infeasible zone)
+        frac = float(obj.get("frac", 0.3))
+
+        def g(x):
+            xs = x.tolist()
+            s = 0.0
+            bad = True
+            for i in rng:
+                z = (xs[i] - c[i]) / R[i]
+                s += z * z
+                if (xs[i] - lo[i]) / R[i] > frac:
+                    bad = False
+            return math.inf if bad else s
+
     elif fam == "pit":
         # a small region in which the value is infinite in the *good* direction (legal, if degenerate)
         rad = float(obj.get("rad", 0.15))
@@ -177,6 +192,8 @@ def gen_objective(rng, d: int, fam: str | None = None) -> dict:
         obj["q"] = rng.choice([4.0, 8.0, 30.0])
     elif fam == "constant":
         obj["v"] = rng.choice([0.0, 1.5, -2.0])
+    elif fam == "penalty":
+        obj["frac"] = rng.choice([0.25, 0.4])
     elif fam == "offset":
         obj["off"] = rng.choice([1e6, 1e9, -1e9])
     elif fam == "pit":
